@@ -53,6 +53,12 @@ type world = {
   mutable solved_ok : bool;
 }
 
+(* raw entries (resource, amount in fractions; amount 0 = the `All` policy) -> variant of the model *)
+let mk_variant raw tm =
+  { v_entries = List.filter (fun (_, a) -> a <> N0) raw; v_min_time = tm;
+    v_all = List.filter_map (fun (r, a) -> if a = N0 then Some r else None) raw }
+let class_of_variant v = { rc_entries = v.v_entries; rc_min_time = v.v_min_time; rc_all = v.v_all }
+
 let new_world () = { n_res = 1; workers = []; classes = []; vclasses = []; queues = []; tasks = []; decided = false; inst = None;
                      batches = []; milp = []; vars = []; solution = None; optimal = false; solved_ok = false }
 
@@ -66,8 +72,8 @@ let build_inst w =
                                      w_blocked = List.filter_map (fun (rq, v) -> if v = 0 then Some (n_of_int rq) else None) m.blk;
                                      w_term = (match m.tl with Some t -> Some (n_of_int t) | None -> None) }) ws;
     i_classes = List.map (fun vs -> match vs with
-        | v :: _ -> { rc_entries = v.v_entries; rc_min_time = v.v_min_time }
-        | [] -> { rc_entries = []; rc_min_time = N0 }) w.vclasses;
+        | v :: _ -> class_of_variant v
+        | [] -> { rc_entries = []; rc_min_time = N0; rc_all = [] }) w.vclasses;
     i_queues = w.queues }
 
 let var_s = function
@@ -108,7 +114,7 @@ let process_trace header lines =
         let k = idx 0 w.classes in
         let id = if k >= 0 then k else begin
             w.classes <- w.classes @ [ entries ];
-            w.vclasses <- w.vclasses @ [ [ { v_entries = entries; v_min_time = N0 } ] ];
+            w.vclasses <- w.vclasses @ [ [ mk_variant entries N0 ] ];
             w.queues <- w.queues @ [ empty_queue ];
             List.length w.classes - 1 end in
         pr (Printf.sprintf "= RQ %d" id)
@@ -120,15 +126,17 @@ let process_trace header lines =
     | "ADDRQV" :: vs :: _ ->
         let variants = List.map (fun v -> match String.split_on_char '@' v with
             | [ es; tm ] ->
-                { v_entries = List.map (fun e -> match String.split_on_char ':' e with
-                      | [ r; a ] -> (n_of_int (ios r), n_of_int (ios a)) | _ -> failwith "bad entry") (split_on ',' es);
-                  v_min_time = n_of_int (ios tm) }
+                (List.map (fun e -> match String.split_on_char ':' e with
+                      | [ r; a ] -> (n_of_int (ios r), n_of_int (ios a)) | _ -> failwith "bad entry") (split_on ',' es),
+                 n_of_int (ios tm))
             | _ -> failwith "bad variant") (String.split_on_char '|' vs) in
+        let raw0 = fst (List.hd variants) in
+        let variants = List.map (fun (raw, tm) -> mk_variant raw tm) variants in
         let rec idx i = function [] -> -1 | x :: t -> if x = variants then i else idx (i + 1) t in
         let k = idx 0 w.vclasses in
         let id = if k >= 0 then k else begin
             w.vclasses <- w.vclasses @ [ variants ];
-            w.classes <- w.classes @ [ (List.hd variants).v_entries ];
+            w.classes <- w.classes @ [ raw0 ];
             w.queues <- w.queues @ [ empty_queue ];
             List.length w.vclasses - 1 end in
         pr (Printf.sprintf "= RQ %d" id)
@@ -146,7 +154,7 @@ let process_trace header lines =
                                   (join "," (List.init w.n_res (fun r -> string_of_n (rv_get m.free (n_of_int r))))))) ws;
         let all_ok = ref true in
         let posts = List.map (fun m ->
-            let vw = { vw_id = n_of_int m.id; vw_free = m.free;
+            let vw = { vw_id = n_of_int m.id; vw_res = m.res; vw_free = m.free;
                        vw_term = (match m.tl with Some t -> Some (n_of_int t) | None -> None);
                        vw_blocked = List.map (fun (a, b) -> (n_of_int a, n_of_int b)) m.blk } in
             let ps = List.filter_map (fun (wk, t, v) ->
@@ -158,7 +166,7 @@ let process_trace header lines =
                                           | VNoTime -> "placed-without-remaining-time" | VNoResources -> "placed-without-free-resources" in
                     monitors := Printf.sprintf "M C05 FAIL %s task=%d rq=%d variant=%d worker=%d" cls t rq v m.id :: !monitors)
                   (vplace_errors N0 w.vclasses vw (n_of_int rq) (n_of_int v))) ps;
-            (m, vfree_after w.vclasses m.free (List.map (fun (_, rq, v) -> (n_of_int rq, n_of_int v)) ps))) ws in
+            (m, vfree_after w.vclasses vw m.free (List.map (fun (_, rq, v) -> (n_of_int rq, n_of_int v)) ps))) ws in
         pr (if !all_ok then "= PLACEMENTS ok" else "= PLACEMENTS bad");
         List.iter (fun (m, post) -> match post with
             | Some v -> pr (Printf.sprintf "= POST %d free=%s" m.id (join "," (List.init w.n_res (fun r -> string_of_n (rv_get v (n_of_int r))))))
@@ -181,6 +189,10 @@ let process_trace header lines =
                       if (not quick_fit) && slow_fit then tag "variants-window-quick-unfit-slow-fits"
                     end) w.vclasses) w.workers;
         if List.exists (fun m -> m.blk <> []) w.workers then tag "variants-blocked";
+        if List.exists (fun vs -> List.exists (fun v -> v.v_all <> []) vs) w.vclasses then begin
+          tag "variants-all-policy";
+          if List.exists (fun m -> m.assigned <> []) w.workers then tag "variants-all-policy-busy-worker"
+        end;
         if get "optimal" = "1" && assigned <> [] then tag "nontrivial"
     | "ADDT" :: t :: rq :: p :: _ ->
         let t = ios t and rq = ios rq and p = ios p in
@@ -191,7 +203,7 @@ let process_trace header lines =
         let rq, p = List.assoc t w.tasks in
         w.queues <- set_nth w.queues rq (queue_remove (List.nth w.queues rq) (n_of_int t) (prio_of_user p));
         let m = List.find (fun m -> m.id = wk) w.workers in
-        (match rv_remove_multiple m.free (List.nth w.classes rq) (n_of_int 1) with
+        (match rv_remove_cls m.free (class_of_variant (List.hd (List.nth w.vclasses rq))) (n_of_int 1) with
          | Ok f -> m.free <- f
          | _ -> pr "= PANIC insert_sn_task");
         m.assigned <- m.assigned @ [ rq ]
@@ -377,6 +389,17 @@ let process_trace header lines =
       end) lines;
   List.iter pr (List.rev !monitors);
   if List.length w.classes >= 2 then tag "multi-class";
+  (* `All` policy in the row-system modes: how often, and how often next to a partly busy worker that has
+     the resource (the case in which demand = TOTAL matters) *)
+  if w.decided && not (List.mem "variants" !tags) then begin
+    let all_rs = List.concat_map (fun vs -> match vs with v :: _ -> v.v_all | [] -> []) w.vclasses in
+    if all_rs <> [] then begin
+      tag "all-policy";
+      if List.exists (fun vs -> match vs with v :: _ -> v.v_all <> [] && v.v_entries <> [] | [] -> false) w.vclasses then tag "all-policy-multi-resource";
+      if List.exists (fun m -> m.assigned <> [] && List.exists (fun r -> rv_get m.res r <> N0 && rv_get m.free r <> N0) all_rs) w.workers
+      then tag "all-policy-busy-worker"
+    end
+  end;
   if w.n_res >= 2 then tag "multi-resource";
   if List.exists (fun m -> m.assigned <> []) w.workers then tag "busy-worker";
   if w.decided && List.exists (fun m -> m.tl <> None) w.workers && not (List.mem "variants" !tags) then tag "timed-workers";
